@@ -58,7 +58,7 @@ def dispatch (s : DState) (line : String) : DState × String :=
     else if cmd.startsWith "ss." then
       let (p, out) := Drive.Session.step s.ss toks
       ({ s with ss := p }, out)
-    else if cmd.startsWith "dt." || cmd.startsWith "sc." then
+    else if cmd.startsWith "dt." || cmd.startsWith "sc." || cmd.startsWith "tr." then
       let (p, out) := Drive.Detect.step s.dt toks
       ({ s with dt := p }, out)
     else (s, "bad-op")
